@@ -149,6 +149,8 @@ func exec(op string) (res string) {
 			panic("bad clock")
 		}
 		return burst(uint32(c), int(i64(2)), int(i64(3)), int(i64(4)), hx(5))
+	case "sched", "schedx":
+		return execSched(w)
 	case "genrun", "genrunx":
 		c, err := strconv.ParseUint(w[1], 10, 32)
 		if err != nil {
@@ -570,6 +572,8 @@ func main() {
 	// uniqueness under bursts: TimeUUID() far above 16384 calls with the harness's own clock readings around
 	// every chunk (spec-backed monitors), and generator runs under a controlled clock
 	runBursts(r, out, mult)
+	// concurrent callers as schedules: the interleaving of readings and increments is the input
+	runSched(r, out, mult)
 	// property oracles on the representable range
 	for i := 0; i < 2000*mult; i++ {
 		t, cls := genT(r)
